@@ -202,3 +202,9 @@ def switch_reset_task_waits_reset_after_then_switches_off(reset_after, accepted,
     sw._reset_task.xknx = xk
     run(sw._reset_task._start_internal())
     assert ghost("slept") == [reset_after] and ghost("switched") == [False]
+
+
+ASSUMPTIONS = [
+    "asyncio is trusted behind the contract stubs: a cancelled task/future does not continue, asyncio.timeout cancels what it guards, locks are mutually exclusive, queues are FIFO, tasks switch only at awaits; interleavings inside one await are represented by 'the awaited object completes with any admissible value, times out, or the connection closes'",
+    "TaskRegistry.start_task replaces the running instance and the instance sleeps wait_before_start before its target (C36)",
+]
